@@ -221,17 +221,36 @@ class DTCWTInverse(nn.Module):
         mode = mode_to_int(self.mode)
         _, _, h_dim, w_dim = get_dimensions6(
             self.o_dim, self.ri_dim)
+
+        # Nones, 0-dimensional tensors and empty tensors all stand for zeros
+        def absent(t):
+            return t is None or t.dim() == 0 or t.numel() == 0
+        highs = [None if absent(s) else s for s in highs]
+        if absent(low):
+            low = None
+
+        # The size of each scale. An absent scale has the size implied by the
+        # nearest finer scale that was given
+        sizes = [None if s is None else (s.shape[h_dim], s.shape[w_dim])
+                 for s in highs]
+        for j in range(1, J):
+            if sizes[j] is None and sizes[j-1] is not None:
+                sizes[j] = ((sizes[j-1][0] + 1)//2, (sizes[j-1][1] + 1)//2)
+
         for j, s in zip(range(J-1, 0, -1), highs[1:][::-1]):
-            if s is not None and s.shape != torch.Size([]):
+            if s is not None:
                 assert s.shape[self.o_dim] == 6, "Inverse transform must " \
                     "have input with 6 orientations"
                 assert len(s.shape) == 6, "Bandpass inputs must have " \
                     "6 dimensions"
                 assert s.shape[self.ri_dim] == 2, "Inputs must be complex " \
                     "with real and imaginary parts in the ri dimension"
-                # Ensure the low and highpass are the right size
+            if low is None and s is None:
+                continue
+            # Ensure the low and highpass are the right size
+            if low is not None and sizes[j] is not None:
                 r, c = low.shape[2:]
-                r1, c1 = s.shape[h_dim], s.shape[w_dim]
+                r1, c1 = sizes[j]
                 if r != r1 * 2:
                     low = low[:,:,1:-1]
                 if c != c1 * 2:
@@ -240,10 +259,12 @@ class DTCWTInverse(nn.Module):
             low = INV_J2PLUS.apply(low, s, self.g0a, self.g1a, self.g0b,
                                    self.g1b, self.o_dim, self.ri_dim, mode)
 
+        if low is None and highs[0] is None:
+            return low
         # Ensure the low and highpass are the right size
-        if highs[0] is not None and highs[0].shape != torch.Size([]):
+        if low is not None and sizes[0] is not None:
             r, c = low.shape[2:]
-            r1, c1 = highs[0].shape[h_dim], highs[0].shape[w_dim]
+            r1, c1 = sizes[0]
             if r != r1 * 2:
                 low = low[:,:,1:-1]
             if c != c1 * 2:
